@@ -37,6 +37,13 @@ def run(ctx, eng):
     paths = eng.I.run(fi)
     bad = []
     n = 0
+    # the count of preface bytes still expected may be kept in step by hand
+    # or derived: a property that returns len(self._preamble)
+    fl = m.funcs.get(FB + '_preamble_len')
+    derived_len = fl is not None and 'property' in fl.decorators and any(
+        isinstance(x, ast.Return) and x.value is not None and
+        ast.unparse(x.value) == 'len(self._preamble)'
+        for x in ast.walk(fl.node))
     for p in cm.normal_paths(paths):
         n += 1
         ws = [e for e in p.events if e.kind == 'write' and e.attr == 'data'
@@ -57,7 +64,7 @@ def run(ctx, eng):
                   e.attr == '_preamble_len']
             wp = [e for e in p.events if e.kind == 'write' and
                   e.attr == '_preamble']
-            if len(wl) != 1 or len(wp) != 1:
+            if len(wp) != 1 or (len(wl) != 1 and not derived_len):
                 bad.append('the expected preface is not advanced')
         elif op != ('p', 'data'):
             bad.append('what is appended is %s, expected data'
@@ -137,7 +144,8 @@ def run(ctx, eng):
     ctx.ob('OWN.decisions', cls.qual, 'fields of the frame buffer',
            # (max_frame_size is the connection's to set: whether the class
            # gives it a placeholder first makes no difference)
-           fields | {'max_frame_size'} == {
+           fields | {'max_frame_size'} | (
+               {'_preamble_len'} if derived_len else set()) == {
                'data', 'max_frame_size', '_preamble', '_preamble_len',
                '_headers_buffer'},
            'fields: %s' % sorted(fields), node=cls.node)
